@@ -33,7 +33,7 @@ FLOORS = {"quick": {"events": 60000, "new_acks": 20000, "dup_acks": 10000, "fast
                        "timeouts": 40000, "slow_start_acks": 100000, "cong_avoid_acks": 100000, "deflations": 20000,
                        "short_dup_runs": 16000, "new_segments_checked": 400000, "guard_tight": 60000,
                        "cubic_cases": 4000, "reno_cases": 4000, "multi_segment_acks": 60000, "rtt_above_rto": 10000}}
-KEYS = tuple(FLOORS["quick"].keys()) + ("candidate_forks", "simultaneous_timeouts")
+KEYS = tuple(FLOORS["quick"].keys()) + ("candidate_forks", "simultaneous_timeouts", "app_paced_cases", "windows_beyond_65535")
 MSS = 512
 
 
@@ -47,20 +47,32 @@ def ncases(tier):
 
 def gen_case(rng, i):
     cubic = (i % 3 == 2)
+    big = (i % 7 == 1)            # windows beyond 65535 bytes (more than 128 segments in flight), long duplicate runs
     ev = []
     for _ in range(rng.randint(10, 300)):
         r = rng.random()
         if r < 0.55:
-            ev.append(["ack", rng.choice([1, 1, 1, 2, 3, 8]), rng.choice([0.01, 0.05, 0.1, 0.3, 1.0, 2.5, 6.0, 0.0])])
+            ev.append(["ack", rng.choice([1, 1, 1, 2, 3, 8]), rng.choice([0.01, 0.05, 0.1, 0.3, 1.0, 2.5, 6.0, 0.0, 1e-5, 3e-5])])
         elif r < 0.8:
-            ev.append(["dup", rng.choice([1, 2, 3, 3, 4, 5, 8])])
+            ev.append(["dup", rng.choice([1, 2, 3, 3, 4, 5, 8, 8, 40, 100, 150] if big else [1, 2, 3, 3, 4, 5, 8])])
         else:
             ev.append(["wait", rng.choice([0.05, 0.5, 1.0, 2.0, 4.5, 9.0, 30.0])])
+    if cubic and i % 2 == 0:
+        # from the class defaults congestion avoidance starts only above 65535 bytes: a long loss-free prefix
+        tiny = rng.random() < 0.5
+        ev = [["ack", 1, rng.choice([1e-5, 2e-5, 3e-5]) if tiny else rng.choice([0.01, 0.1])] for _ in range(rng.randint(130, 200))] + ev
     case = {"cc": "TCPCubic" if cubic else "TCPReno", "events": ev, "rtt0": rng.choice([1.0, 0.5, 0.1, 2.0]),
             "segments": rng.choice([None, None, 40, 200])}
     if not cubic:
         case["cwnd0"] = rng.choice([512, 1024, 2048, 5000, 20000, 700])
-        case["ssthresh0"] = rng.choice([65535, 1024, 2048, 4096, 10000, 512])
+        case["ssthresh0"] = rng.choice([65535, 1024, 2048, 4096, 10000, 512, 0, 100])
+        if big:
+            case["cwnd0"] = rng.choice([60000, 120000, 65535])
+            case["segments"] = None
+    if i % 5 == 3:
+        # an application-paced flow: data becomes available in chunks, the sender is application limited
+        case["app"] = {"gap": rng.choice([0.5, 1.0, 3.0]), "chunk": rng.choice([512, 1024, 2048])}
+        case["segments"] = None
     return case
 
 
@@ -184,7 +196,13 @@ def run_case(case, stats):
     net = vnet.Net()
     env = net.env
     size = None if case["segments"] is None else case["segments"] * MSS
-    flow = Flow(flow_id=1, src="s", dst="d", start_time=0, finish_time=float("inf"), size=size)
+    if case.get("app"):
+        g, ch = case["app"]["gap"], case["app"]["chunk"]
+        flow = Flow(flow_id=1, src="s", dst="d", start_time=0, finish_time=float("inf"), size=None,
+                    arrival_dist=lambda: g, size_dist=lambda: ch)
+        stats["app_paced_cases"] += 1
+    else:
+        flow = Flow(flow_id=1, src="s", dst="d", start_time=0, finish_time=float("inf"), size=size)
     if case["cc"] == "TCPReno":
         cc = TCPReno(mss=MSS, cwnd=case["cwnd0"], ssthresh=case["ssthresh0"])
         stats["reno_cases"] += 1
@@ -251,6 +269,8 @@ def run_case(case, stats):
                 {"event": what, "real_vs_reference": diffs, "now": env.now, "admissible_worlds": len(worlds)})
             return False
         worlds[:] = keep
+        if sender.congestion_control.cwnd > 65535:
+            stats["windows_beyond_65535"] += 1
         if sender.congestion_control.cwnd < MSS - 1e-9:
             bad("cwnd-below-one-mss", "cwnd fell below one MSS", sender.congestion_control.cwnd)
             return False
@@ -260,7 +280,10 @@ def run_case(case, stats):
         settle()
         if not compare("start"):
             return viol
-        for evn in case["events"]:
+        import collections
+        queue = collections.deque([list(e) for e in case["events"]])
+        while queue:
+            evn = queue.popleft()
             if viol:
                 break
             stats["events"] += 1
@@ -351,19 +374,28 @@ def run_case(case, stats):
                     if not compare(f"dup-ack"):
                         break
             else:
-                # wait: let retransmission timers expire, one expiry instant at a time
+                # wait: let retransmission timers expire, one expiry instant at a time (new segments sent
+                # meanwhile -- an application-paced flow -- arm new timers: the next expiry is recomputed then)
                 until = env.now + evn[1]
+                n0 = len(txlog)
                 while not viol:
                     live = {s: a0 + r for s, (a0, r) in arm.items()}
                     due = [t for t in live.values() if t <= until]
                     if not due:
                         break
                     tnext = min(due)
-                    n0 = len(txlog)
+                    armed = set(arm)
+                    rearmed = False
                     while env.peek() <= tnext + 1e-9 * max(1.0, abs(tnext)):
                         env.step()
-                    expired = sorted(s for s, t in live.items() if vnet.close(t, tnext))
+                        if set(arm) != armed:
+                            rearmed = True
+                            break
+                    if rearmed:
+                        continue
+                    expired = sorted(s for s, t in live.items() if t <= tnext + 1e-9 * max(1.0, abs(tnext)))
                     retx = sorted(t[1] for t in txlog[n0:] if t[2] == "retx")
+                    n0 = len(txlog)
                     if retx != expired:
                         import os
                         if os.environ.get("C17DBG"):
@@ -381,10 +413,6 @@ def run_case(case, stats):
                     if len(expired) == 1:
                         arm[expired[0]] = (env.now, vals[0])
                     else:
-                        # several timers expired in one instant: each doubling re-arms one of them, in the
-                        # order their processes woke up, which the boundary cannot see.  The public
-                        # Timer.expire_time tells which timer got which of the expected values (it must be
-                        # a permutation of them).
                         stats["simultaneous_timeouts"] += 1
                         remaining = list(vals)
                         for s in expired:
@@ -401,15 +429,23 @@ def run_case(case, stats):
                         break
                 if viol:
                     break
-                n0 = len(txlog)
-                if env.peek() <= until:
-                    while env.peek() <= until:
-                        env.step()
+                armed = set(arm)
+                again = False
+                while env.peek() <= until:
+                    env.step()
+                    if set(arm) != armed and any(a0 + r <= until for (a0, r) in arm.values()):
+                        again = True
+                        break
+                if again:
+                    # a segment sent during the wait armed a timer that expires before its end: re-enter the wait
+                    rest = until - env.now
+                    if rest > 0:
+                        queue.appendleft(["wait", rest])
+                    if not compare("wait"):
+                        break
+                    continue
                 if until > env.now:
-                    try:
-                        env.run(until=until)
-                    except Exception:
-                        raise
+                    env.run(until=until)
                 if any(t[2] == "retx" for t in txlog[n0:]):
                     bad("spurious-retransmission", "a segment was retransmitted although no timer of an unacknowledged segment was due",
                         {"now": env.now, "retransmitted": [t[1] for t in txlog[n0:] if t[2] == "retx"]})
